@@ -39,6 +39,7 @@ func TestC19(t *testing.T) {
 		}
 		sc := genScenario(t, o)
 		c := &sc.Client
+		sc.Config.Unknown = rapid.IntRange(0, 2).Draw(t, "c19_unknown_handler") == 0
 		if form == FormConnectGet {
 			c.Method = rapid.SampledFrom([]string{"UnaryGet", "Params", "Page", "UnaryIdem", "Unary", "UnaryPlain", "UnaryField"}).Draw(t, "get_method")
 			mi := lookupMethod(benchService, c.Method)
@@ -127,6 +128,9 @@ func checkC19(gc *getCase) *CheckResult {
 		res.NonTrivial = true
 		if out.Invocations > 0 {
 			res.violate("get_dispatched", "c19:inbound", "Connect GET on %s (not side-effect-free) was dispatched to the handler", c.Method)
+		}
+		if out.UnknownCalls > 0 {
+			res.violate("get_dispatched", "c19:inbound", "Connect GET on %s (not side-effect-free) was handed to the unknown-endpoint handler instead of being refused with 405", c.Method)
 		}
 		if cv.Status != 405 {
 			res.violate("get_status", "c19:inbound", "Connect GET on %s (not side-effect-free) answered %d, want 405", c.Method, cv.Status)
